@@ -144,7 +144,57 @@ def apply_marks(s, marks):
     return s
 
 
-def check_case(st):
+SUFFIX = re.compile(r'\.\.\.( \(len=\d+\))?$')
+
+
+def shows(shown, full):
+    """the payload of a trace line is the repr itself, or a faithful prefix of it marked as truncated"""
+    if shown == full:
+        return True
+    m = SUFFIX.search(shown)
+    return bool(m) and full.startswith(shown[:m.start()]) and len(shown) < len(full)
+
+
+def check_widths(st, obs, proj):
+    """long / non-ASCII root target and other widths: same lines, every payload a faithful (possibly
+    truncated) rendering, no line wider than the width"""
+    big = frames.execute(st['tree'], st['plan'], hook=False, big_root=True)
+    if big['out'] != 'err':
+        return 'with a long root target the call succeeded'
+    try:
+        msg = str(big['error'])
+    except Exception as ex:
+        return 'str(error) raised %s for a long non-ASCII root target' % type(ex).__name__
+    parsed, why = parse_trace(msg)
+    if why:
+        return why + ' (long root target)'
+    bproj, body, lines = parsed
+    if [(d, k) for d, k, _ in bproj] != [(d, k) for d, k, _ in proj]:
+        return 'a long root target changes the structure of the trace'
+    full = repr(frames.BigTok.__new__(frames.BigTok, (0,))) if False else 't0<' + '\u00e9\u4e16' * 90 + '>'
+    for (d, k, text), line in zip(bproj, body):
+        if k in ('T', 'S') and len(line) > TRACE_WIDTH:      # error lines are never truncated
+            return 'trace line wider than the width %d: %r' % (TRACE_WIDTH, line[:60])
+        if k == 'T' and text.startswith('t0<') and not shows(text, full):
+            return 'truncated target %r is not a faithful prefix of its repr' % (text[:60],)
+    # other widths through the formatter the message is built with
+    e = big['error']
+    scope, wrapped = getattr(e, '_scope', None), getattr(e, '_GlomError__wrapped', None)
+    if scope is not None and hasattr(glom.core, 'format_target_spec_trace'):
+        for w in (50, 64, 200):
+            try:
+                text = glom.core.format_target_spec_trace(scope, wrapped, width=w)
+            except Exception as ex:
+                return 'format_target_spec_trace(width=%d) raised %s' % (w, type(ex).__name__)
+            wl = text.split('\n')
+            if len(wl) != len(body):
+                return 'width %d changes the number of trace lines (%d vs %d)' % (w, len(wl), len(body))
+            if any(len(l) > w for l, (d, k, _) in zip(wl, bproj) if k in ('T', 'S')):
+                return 'width %d: a Target / Spec line is wider than the width' % w
+    return None
+
+
+def check_case(st, widths=False):
     tree, plan, res = st['tree'], st['plan'], st['res']
     obs = frames.execute(tree, plan)
     case = dict(tree=tree, plan=plan, text=repr(obs['spec']))
@@ -192,6 +242,10 @@ def check_case(st):
         if not s.startswith(want[:len(indent) + 2]):
             drift = 'line %r: expected prefix %r' % (s, want)
             break
+    if widths:
+        w = check_widths(st, obs, proj)
+        if w:
+            return w, case, None
     return None, case, drift
 
 
@@ -208,7 +262,7 @@ def worker(states):
         res = st['res']
         if st['phase'] != 1 or res['out'] != 'err' or res['used'] > len(st['plan']):
             continue
-        why, case, drift = check_case(st)
+        why, case, drift = check_case(st, widths=(out['n'] % 7 == 0))
         out['n'] += 1
         nontrivial = len(res['lines']) >= 4
         out['nontrivial'] += nontrivial
